@@ -19,7 +19,8 @@
   no meaning (fields are found by name; the aligned statistics lists by a common index), so the
   model has no such notion: the harness's `cfg<n>` sessions, which permute the lists, are judged
   against the same model.
-  A flow key is an opaque number (the harness maps it to a fixed 5-tuple); times are virtual
+  A flow key is a number here (the harness maps it to a five-tuple); what a key IS - getFlowKeyFromRecord over a
+  record's elements, and that it distinguishes exactly the five-tuples - is Model/FlowKey.lean; times are virtual
   milliseconds (the overlay replaces time.Now() by a clock the harness sets).
   Arithmetic is uint64 / uint32 exactly as in the code.
 -/
